@@ -333,6 +333,7 @@ package ucfg
 //@ func parsePath
 //@ props C12 C20
 //@ pure
+//@ ensures [key !unproved] pathKey(result) == in
 //@ ensures [nonempty] len(result.fields) >= 1
 //@ ensures [sep] result.sep == sep
 //@ ensures [single] sep == "" ==> len(result.fields) == 1
@@ -351,6 +352,7 @@ package ucfg
 //@ props C12 C20
 //@ pure
 //@ requires opts != nil
+//@ ensures [key] pathKey(result) == in
 //@ ensures [nonempty] len(result.fields) >= 1
 //@ ensures [nonnil] forall j int :: 0 <= j && j < len(result.fields) ==> result.fields[j] != nil
 //@ ensures [sep] result.sep == opts.pathSep
@@ -1091,3 +1093,130 @@ package ucfg
 //@ loop 1 invariant inChain(opts.activeFields, pathStr(r.Path)) && !old(inChain(opts.activeFields, pathStr(r.Path)))
 //@ loop 1 invariant r.Path == old(r.Path)
 //@ loop 1 decreases len(env)
+
+//@ func (*reference).resolveEnv :: r, cfg, opts -> s, pc, err
+//@ props C02
+//@ requires r != nil && opts != nil
+//@ requires forall j int :: 0 <= j && j < len(opts.resolvers) ==> opts.resolvers[j] != nil
+//@ pure
+//@ ensures [last_wins] len(opts.resolvers) > 0 && dyn2(opts.resolvers[len(opts.resolvers) - 1], error, pathStr(r.Path)) == nil ==> err == nil && s == dyn0(opts.resolvers[len(opts.resolvers) - 1], string, pathStr(r.Path))
+//@ ensures [success_is_a_resolver] err == nil ==> exists j int :: 0 <= j && j < len(opts.resolvers) && dyn2(opts.resolvers[j], error, pathStr(r.Path)) == nil && s == dyn0(opts.resolvers[j], string, pathStr(r.Path)) && forall i int :: j < i && i < len(opts.resolvers) ==> dyn2(opts.resolvers[i], error, pathStr(r.Path)) != nil
+//@ ensures [none] (forall j int :: 0 <= j && j < len(opts.resolvers) ==> dyn2(opts.resolvers[j], error, pathStr(r.Path)) != nil) ==> err != nil
+//@ loop 1 invariant -1 <= i && i < len(opts.resolvers) && key == pathStr(r.Path)
+//@ loop 1 invariant forall k int :: i < k && k < len(opts.resolvers) ==> dyn2(opts.resolvers[k], error, key) != nil
+//@ loop 1 invariant i < len(opts.resolvers) - 1 ==> err != nil
+//@ loop 1 decreases i + 1
+
+// ---------------------------------------------------------------- C02: the operator table of ${x}, ${x:d}, ${x:+a}, ${x:?m}
+
+// Sub-evaluations are named by ghost functions of (expression, configuration) / (source string of the path,
+// configuration): the outcome of evaluating a piece is assumed to be a function of these while one setting is
+// read (what justifies it is the scoping of the active set, C08). pathKey(p) is the string a path was parsed from.
+//@ ghost func pathKey(p cfgPath) string
+//@ ghost func evOk(e varEvaler, c *Config) bool
+//@ ghost func evStr(e varEvaler, c *Config) string
+//@ ghost func refOk(path string, c *Config) bool
+//@ ghost func refStr(path string, c *Config) string
+//@ ghost func resOk(path string, c *Config) bool
+//@ ghost func resVal(path string, c *Config) value
+
+//@ iface varEvaler.eval :: self, cfg, opts -> s, err
+//@ modifies tree(opts)
+//@ ensures (err == nil) == evOk(self, cfg)
+//@ ensures err == nil ==> s == evStr(self, cfg)
+
+//@ func newReference :: p -> r
+//@ props C02
+//@ pure
+//@ ensures [spec] fresh(r) && r.Path == p
+
+//@ func (*reference).eval :: r, cfg, opts -> s, err
+//@ trusted
+//@ requires r != nil && opts != nil
+//@ modifies tree(opts)
+//@ ensures (err == nil) == refOk(pathKey(r.Path), cfg)
+//@ ensures err == nil ==> s == refStr(pathKey(r.Path), cfg)
+
+//@ func (*reference).resolve :: r, cfg, opts -> v, err
+//@ trusted
+//@ requires r != nil && opts != nil
+//@ modifies tree(opts)
+//@ ensures (err == nil) == resOk(pathKey(r.Path), cfg)
+//@ ensures err == nil ==> v == resVal(pathKey(r.Path), cfg)
+
+//@ func (*expansionSingle).eval :: e, cfg, opts -> s, err
+//@ props C02
+//@ requires e != nil && opts != nil && e.evaler != nil && !inTree(opts, e) && !inTree(opts, opts)
+//@ modifies tree(opts)
+//@ ensures [name_fails] !evOk(old(e.evaler), cfg) ==> err != nil
+//@ ensures [value] evOk(old(e.evaler), cfg) ==> (err == nil) == refOk(evStr(old(e.evaler), cfg), cfg) && (err == nil ==> s == refStr(evStr(old(e.evaler), cfg), cfg))
+
+//@ func (*expansionDefault).eval :: e, cfg, opts -> s, err
+//@ props C02
+//@ requires e != nil && opts != nil && e.expansion.left != nil && e.expansion.right != nil && !inTree(opts, e) && !inTree(opts, opts)
+//@ modifies tree(opts)
+//@ ensures [value] evOk(old(e.expansion.left), cfg) && evStr(old(e.expansion.left), cfg) != "" && refOk(evStr(old(e.expansion.left), cfg), cfg) && refStr(evStr(old(e.expansion.left), cfg), cfg) != "" ==> err == nil && s == refStr(evStr(old(e.expansion.left), cfg), cfg)
+//@ ensures [default] !(evOk(old(e.expansion.left), cfg) && evStr(old(e.expansion.left), cfg) != "" && refOk(evStr(old(e.expansion.left), cfg), cfg) && refStr(evStr(old(e.expansion.left), cfg), cfg) != "") ==> (err == nil) == evOk(old(e.expansion.right), cfg) && (err == nil ==> s == evStr(old(e.expansion.right), cfg))
+
+//@ func (*expansionAlt).eval :: e, cfg, opts -> s, err
+//@ props C02
+//@ requires e != nil && opts != nil && e.expansion.left != nil && e.expansion.right != nil && !inTree(opts, e) && !inTree(opts, opts)
+//@ modifies tree(opts)
+//@ ensures [unset] !(evOk(old(e.expansion.left), cfg) && evStr(old(e.expansion.left), cfg) != "" && resOk(evStr(old(e.expansion.left), cfg), cfg) && resVal(evStr(old(e.expansion.left), cfg), cfg) != nil) ==> err == nil && s == ""
+//@ ensures [set] evOk(old(e.expansion.left), cfg) && evStr(old(e.expansion.left), cfg) != "" && resOk(evStr(old(e.expansion.left), cfg), cfg) && resVal(evStr(old(e.expansion.left), cfg), cfg) != nil ==> (err == nil) == evOk(old(e.expansion.right), cfg) && (err == nil ==> s == evStr(old(e.expansion.right), cfg))
+
+//@ func (*expansionErr).eval :: e, cfg, opts -> s, err
+//@ props C02
+//@ requires e != nil && opts != nil && e.expansion.left != nil && e.expansion.right != nil && !inTree(opts, e) && !inTree(opts, opts)
+//@ modifies tree(opts)
+//@ ensures [value] evOk(old(e.expansion.left), cfg) && evStr(old(e.expansion.left), cfg) != "" && refOk(evStr(old(e.expansion.left), cfg), cfg) && refStr(evStr(old(e.expansion.left), cfg), cfg) != "" ==> err == nil && s == refStr(evStr(old(e.expansion.left), cfg), cfg)
+//@ ensures [fails] !(evOk(old(e.expansion.left), cfg) && evStr(old(e.expansion.left), cfg) != "" && refOk(evStr(old(e.expansion.left), cfg), cfg) && refStr(evStr(old(e.expansion.left), cfg), cfg) != "") ==> err != nil
+
+//@ func (constExp).eval :: c, _, _ -> r, err
+//@ props C02
+//@ pure
+//@ ensures [literal] err == nil && same(r, c)
+
+// ---------------------------------------------------------------- C08: the active set is scoped (restored on every exit)
+
+//@ iface value.reify :: self, opts -> r, err
+//@ modifies tree(opts)
+//@ ensures opts.activeFields == old(opts.activeFields)
+
+//@ func reifyValue :: opts, t, val -> r, err
+//@ trusted
+//@ modifies tree(opts.opts)
+//@ ensures opts.opts.activeFields == old(opts.opts.activeFields)
+
+//@ func reifyMergeValue :: opts, oldValue, val -> r, err
+//@ trusted
+//@ modifies tree(opts.opts)
+//@ ensures opts.opts.activeFields == old(opts.opts.activeFields)
+
+//@ func reifyMap$1
+//@ requires deref(opts) != nil
+//@ modifies deref(opts).activeFields
+//@ ensures [restore] deref(opts).activeFields == deref(parentFields)
+
+//@ func reifyMap :: opts, to, from, validators -> err
+//@ props C08
+//@ norte
+//@ requires opts != nil && from != nil && from.fields != nil
+//@ modifies *
+//@ ensures [scope] opts.activeFields == old(opts.activeFields)
+
+//@ func (cfgSub).reify$1
+//@ requires deref(opts) != nil
+//@ modifies deref(opts).activeFields
+//@ ensures [restore] deref(opts).activeFields == deref(parentFields)
+
+//@ func (cfgSub).reify :: c, opts -> r, err
+//@ props C08
+//@ norte
+//@ requires opts != nil && c.c != nil && c.c.fields != nil
+//@ modifies *
+//@ ensures [scope] opts.activeFields == old(opts.activeFields)
+
+//@ func tryInitDefaults
+//@ trusted
+//@ pure
